@@ -1713,6 +1713,14 @@ def reader_outcomes(chk, rule):
             if not (rv["k"] == "aggregate" and rv.get("adt") == READSTATUS):
                 continue
             under_err = [f.loc(sb) for sb, t_ in err_edges if t_ is not None and an.dominated_by_edge(f, sb, t_, b)]
+            # (also where the failure arm merges with the success arm: `Err(e) if e.kind() != InvalidData => Error(e), _ => { .. Read(..) }`)
+            if not under_err and rv["variant"] in ("Done", "Read"):
+                for sb, t_ in err_edges:
+                    if t_ is None:
+                        continue
+                    inf_ = an.infeasible_edges_from(f, t_, None)
+                    if b in an.reachable_with_edges_removed(f, t_, set(), inf_) and sb in [x[0] for x in first]:
+                        under_err.append("%s (reachable from the failure edge)" % f.loc(sb))
             v = rv["variant"]
             if v in ("Done", "Read") and under_err:
                 bad.append("%s constructed under the failure edge at %s" % (v, under_err))
